@@ -596,7 +596,7 @@ impl<'a> GeneratorState<'a> {
                     Ok(ExprType::Absolute(variable.clone(), *eight_bits, *offset))
                 } else {
                     // Implment optimization for inc on pointers
-                    if !superchip && (v.var_type == VariableType::Short || (v.var_type == VariableType::CharPtr && !eight_bits)) {
+                    if !superchip && (v.var_type == VariableType::Short || ((v.var_type == VariableType::CharPtr || v.var_type == VariableType::ShortPtr || v.var_type == VariableType::CharPtrPtr) && !eight_bits)) {
 // Implement optimized 16 bits increment:
 //        inc     ptr
 //        bne     :+
@@ -639,7 +639,7 @@ impl<'a> GeneratorState<'a> {
                         let right = ExprType::Immediate(1);
                         let newright = self.generate_arithm(expr_type, &op, &right, pos, false)?;
                         let ret = self.generate_assign(expr_type, &newright, pos, false);
-                        if v.var_type == VariableType::Short || (v.var_type == VariableType::CharPtr && !eight_bits) {
+                        if v.var_type == VariableType::Short || ((v.var_type == VariableType::CharPtr || v.var_type == VariableType::ShortPtr || v.var_type == VariableType::CharPtrPtr) && !eight_bits) {
                             let newright = self.generate_arithm(expr_type, &op, &right, pos, true)?;
                             self.generate_assign(expr_type, &newright, pos, true)?;
                         }
